@@ -219,7 +219,22 @@ fn gen_random(r: &mut Rng) -> String {
             let dur = match r.below(6) { 0 => 0, 1 => 1, 2 => 3600, 3 => 86400 * 365, 4 => u64::MAX, _ => r.below(1_000_000) };
             format!("fund rate {w} {unit} {e} {fac} {inc} {dec} {mx} {mn} {ts} {td} {cur} {dur} {l} {s}")
         }
-        5 | 6 => {
+        5 => {
+            // a synthetic funding update on a state with non-zero indices
+            let adj = if w == 64 { 10_000u128 } else { 10_000_000_000 };
+            let e = unit * *r.pick(&[1u128, 1, 2]);
+            let mx = unit / 1_000_000_000 * r.range(1, 500) as u128;
+            let inc = if r.chance(1, 2) { unit / 1_000_000_000 * r.range(1, 50) as u128 } else { 0 };
+            let cur = if inc == 0 { 0 } else { r.below(2 * mx as u64 + 1) as i128 - mx as i128 };
+            let scale: u128 = if w == 64 { 1 } else { 100_000_000_000 };
+            let o = |r: &mut Rng| -> u128 { if r.chance(1, 5) { 0 } else { r.range(1, 5_000_000) as u128 * 1_000_000 * scale } };
+            let idx = |r: &mut Rng| -> u128 { if r.chance(1, 4) { 0 } else { r.below(1_000_000_000_000) as u128 * scale } };
+            let dur = *r.pick(&[1u64, 60, 3600, 86400]);
+            let (pl, ps) = (r.range(1, 300) as u128 * scale, scale);
+            format!("fund update {w} {unit} {adj} {e} {} {inc} 0 {mx} {} 0 0 {cur} {dur} {pl} {ps} {} {} {} {} {} {} {} {} {} {} {} {}", unit / 50, mx / 10,
+                o(r), o(r), o(r), o(r), idx(r), idx(r), idx(r), idx(r), idx(r), idx(r), idx(r), idx(r))
+        }
+        6 => {
             let big_adj = r.num(w);
             let adj = *r.pick(&[if w == 64 { 10_000u128 } else { 10_000_000_000 }, 1, 0, big_adj]);
             let fv = oi(r); let o = oi(r);
